@@ -12,6 +12,7 @@ import (
 	"time"
 
 	"verifharness/proto"
+	"verifharness/simrt"
 )
 
 // recorder is the single event log and fault injector of one run.
@@ -323,6 +324,7 @@ func (r *recorder) osEvent(op, path string, n int) (int, error) {
 		}
 	}
 
+	simrt.Tick()
 	r.mu.Lock()
 	ev := proto.Event{Seq: r.seq, Exec: -1, Kind: "os." + op, Path: rel, N: n}
 	r.seq++
@@ -435,6 +437,7 @@ func (r *recorder) genEvent(ev proto.Event) genAction {
 		}
 		return actNone
 	}
+	simrt.Tick()
 	r.mu.Lock()
 	ev.Seq = r.seq
 	r.seq++
